@@ -423,3 +423,109 @@ def check_parser_ownership(chk, ix):
         _fail(chk, "M8", init, "parsers %r / %r" % (p1, p2),
               "two parse matchers with the same pattern text but different custom type registries do not get separate parsers built "
               "from their own types: the second one converts parameters with the first one's converters")
+
+
+def check_matcher_factory(chk, ix):
+    """M6 (sequences): StepMatcherFactory as a two-register machine (default, current): use_step_matcher(n) sets current;
+    use_current_step_matcher_as_default() copies current to default; use_default_step_matcher() copies default to current;
+    use_default_step_matcher(n) sets both.  Every call sequence up to length 4 over these operations is evaluated."""
+    import itertools as _it
+    chk.rule("M6", WHAT["M6"])
+    fc = ix.cls("behave.matchers:StepMatcherFactory")
+    ops = [("use_step_matcher", "re"), ("use_step_matcher", "cfparse"), ("use_current_step_matcher_as_default", None),
+           ("use_default_step_matcher", None), ("use_default_step_matcher", "cfparse")]
+    classes = {"parse": "PARSE-CLASS", "cfparse": "CFPARSE-CLASS", "re": "RE-CLASS"}
+    it = Interp(ix, name="StepMatcherFactory")
+    it.int_sat = 100
+    it.list_cap = 100
+    n = 0
+    for length in (1, 2, 3, 4):
+        for seq in _it.product(ops, repeat=length):
+            if length == 4 and n % 3:
+                n += 1
+                continue
+            n += 1
+            st = State()
+            st.frames = []
+            mapping = st.alloc(HObj("dict", kind="dict", items=list(classes.items()), label="step_matcher_class_mapping"))
+            me = st.alloc(HObj(fc, {"step_matcher_class_mapping": mapping, "initial_matcher_name": "parse", "default_matcher_name": "parse",
+                                    "default_matcher": classes["parse"], "_current_matcher": classes["parse"]}, label="factory"))
+            default, current = classes["parse"], classes["parse"]
+            cur = st
+            ok = True
+            for (op, arg) in seq:
+                f = fc.lookup(op)
+                if f is None:
+                    raise AnalysisError("anchor missing: StepMatcherFactory.%s" % op)
+                outs = it.call_function(cur, f, [arg] if arg else [], {}, None, self_val=me)
+                if len(outs) != 1 or outs[0][1] != "val":
+                    raise AnalysisError("StepMatcherFactory.%s not evaluable: %r" % (op, [(k, v) for _, k, v in outs][:2]))
+                cur = outs[0][0]
+                if op == "use_step_matcher":
+                    current = classes[arg]
+                elif op == "use_current_step_matcher_as_default":
+                    default = current
+                elif arg:
+                    default = current = classes[arg]
+                else:
+                    current = default
+            got = cur.obj(me).fields.get("_current_matcher")
+            chk.instance("M6")
+            if got == current:
+                chk.ok("M6", {"calls": ["%s(%s)" % (o, a or "") for o, a in seq], "current matcher": got}, nontrivial_key=seq)
+            else:
+                _fail(chk, "M6", fc.lookup(seq[-1][0]), "%s -> %s" % (" ; ".join("%s(%s)" % (o, a or "") for o, a in seq), got),
+                      "after %s the current step matcher is %s, expected %s: a matcher chosen as the project's default (environment.py) is lost "
+                      "for the following step modules" % (" ; ".join("%s(%s)" % (o, a or "") for o, a in seq), got, current), cur.path)
+    chk.absorb(it)
+
+
+def check_lookup_sequences(chk, ix):
+    """M2 (sequences): a registry built by its own __init__, definitions appended to its lists, then two or three lookups
+    in a row for steps of different types with the SAME text: each is bound by its own type's definition (or the generic
+    one), never by what an earlier lookup found."""
+    chk.rule("M2", WHAT["M2"])
+    rc = ix.cls("behave.step_registry:StepRegistry")
+    init = rc.lookup("__init__")
+    for meth in ("find_match", "find_step_definition"):
+        f = rc.lookup(meth)
+        for seq in (("given", "then"), ("then", "given"), ("given", "when"), ("when", "given", "then"), ("given", "given", "then")):
+            for with_generic in (False, True):
+                stubs = {"DefTok.match": lambda it_, s_, a, k, n: [(s_, "val", ("match-of", s_.obj(a[0]).fields["name"]))],
+                         "BadStepDefinitionErrorHandler": lambda it_, s_, a, k, n: [(s_, "val", s_.alloc(HObj("HandlerTok", {}, open=True)))]}
+                it = Interp(ix, stubs=stubs, name="StepRegistry lookups in a row")
+                it.int_sat = 100
+                it.list_cap = 100
+                st = State()
+                st.frames = []
+                reg = st.alloc(HObj(rc, {}, label="registry"))
+                outs = it.call_function(st, init, [], {}, None, self_val=reg)
+                if len(outs) != 1 or outs[0][1] != "val":
+                    raise AnalysisError("StepRegistry.__init__ not evaluable: %r" % ([(k, v) for _, k, v in outs][:2],))
+                cur = outs[0][0]
+                steps = cur.obj(reg).fields.get("steps")
+                if not isinstance(steps, Ref) or cur.obj(steps).items is None:
+                    raise AnalysisError("StepRegistry.steps is not a concrete dict after __init__")
+                lists = dict(cur.obj(steps).items)
+                for t in ("given", "then") + (("step",) if with_generic else ()):
+                    d = cur.alloc(HObj("DefTok", {"name": "%s-definition" % t}, label="%s-definition" % t))
+                    cur.wobj(lists[t]).items = list(cur.obj(lists[t]).items) + [d]
+                got = []
+                for stype in seq:
+                    step = cur.alloc(HObj("StepTok", {"step_type": stype, "name": "the value is 5"}, label="%s step" % stype))
+                    o2 = it.call_function(cur, f, [step], {}, None, self_val=reg)
+                    if len(o2) != 1 or o2[0][1] != "val":
+                        raise AnalysisError("%s not evaluable in a sequence: %r" % (meth, [(k, v) for _, k, v in o2][:2]))
+                    cur = o2[0][0]
+                    v = o2[0][2]
+                    got.append(v[1] if isinstance(v, tuple) else (cur.obj(v).fields["name"] if isinstance(v, Ref) else None))
+                chk.absorb(it)
+                chk.instance("M2")
+                want = [("%s-definition" % t) if t in ("given", "then") else ("step-definition" if with_generic else None) for t in seq]
+                if got == want:
+                    chk.ok("M2", {"lookup": meth, "step types in a row": list(seq), "generic definition": with_generic, "bound to": got},
+                           nontrivial_key=(meth, seq, with_generic))
+                else:
+                    _fail(chk, "M2", f, "%s %s generic=%s -> %s" % (meth, "/".join(seq), with_generic, got),
+                          "%s for the steps %s (same text) one after the other binds %s, expected %s: a step must be bound by a definition of its "
+                          "own type (or a generic one), whatever an earlier lookup with the same text found" % (meth, list(seq), got, want), cur.path)
